@@ -88,7 +88,7 @@ from typing import Dict, List, Optional, Set, Tuple
 
 from ..cfg import atoms, cfg_of, origins
 from ..errflow import Absorb, ExcTypes, Flow, Graph, Site, short_name
-from ..index import AnalysisError, FuncNode, call_name, calls_in, const, enclosing_class, enclosing_function, kwarg, last_attr, module_of, norm, parent, short, walk_local
+from ..index import AnalysisError, FuncNode, arg_of, call_name, calls_in, const, enclosing_class, enclosing_function, kwarg, last_attr, module_of, norm, parent, short, walk_local
 from ..report import construct_of
 
 LINTER = "src/sqlfluff/core/linter/linter.py"
@@ -346,30 +346,66 @@ def _r04i(chk) -> None:
     if any(_in_try_taking(c, {"ValueError", "Exception"}) for c in parses) and all(_in_try_taking(c, {"ValueError", "Exception"}) for c in parses):
         chk.note("R04i: the slicer handles ValueError itself; call order is free")
         return
+    from ..flowutil import param_origin
+
+    def _params(f) -> List[str]:
+        return [a.arg for a in f.args.posonlyargs + f.args.args]
+
+    def _same_value(cfg, a, at_a, b, at_b) -> bool:
+        """Both read the same string: the same text, or locals that can only hold the same unmodified parameter."""
+        pa, pb = param_origin(cfg, a, at_a), param_origin(cfg, b, at_b)
+        if pa is not None or pb is not None:
+            return pa == pb
+        return norm(a) == norm(b)
+
+    def _render_param(cfg, fn, at, params) -> bool:
+        """The callee is the render parameter, directly or through a local that only holds it."""
+        if not isinstance(fn, ast.Name):
+            return False
+        po = param_origin(cfg, fn, at)
+        return po is not None and po in params and po.startswith("render")
+
     n = 0
-    for q, f in m.functions():
-        if not q.startswith("PythonTemplater."):
+    # (method name, position of the sliced string among its non-self parameters, keyword name)
+    work = [("_slice_template", 0, _params(sl)[1] if len(_params(sl)) > 1 else "in_str")]
+    seen = set()
+    fns = [(q, f) for q, f in m.functions() if q.startswith("PythonTemplater.")]
+    while work:
+        name, pos, kw = work.pop()
+        if name in seen:
             continue
-        cs = [c for c in calls_in(f) if last_attr(c) == "_slice_template" and c.args]
-        if not cs:
-            continue
-        cfg = cfg_of(f)
-        params = {a.arg for a in f.args.args + f.args.kwonlyargs}
-        for c in cs:
-            n += 1
-            st = cfg.stmt_of(c)
-            arg = norm(c.args[0])
-            renders = [
-                r for r in calls_in(f)
-                if isinstance(r.func, ast.Name) and r.func.id in params and r.func.id.startswith("render") and r.args and norm(r.args[0]) == arg
-            ]
-            ok = any(cfg.stmt_of(r) is not st and cfg.dominates(cfg.stmt_of(r), st) for r in renders)
-            chk.require(
-                ok, "R04i", c,
-                f"{q} slices `{arg}` with string.Formatter().parse before (or without) rendering it: an unbalanced brace raises a bare ValueError from the slicer, which has no "
-                "handler because the render step -- whose handlers turn the same failure into a SQLTemplaterError / TMP violation -- was meant to reject the string first",
-                detail=f"{q}: render_func dominates the raw slicer",
-            )
+        seen.add(name)
+        for q, f in fns:
+            cs = [c for c in calls_in(f) if last_attr(c) == name and arg_of(c, pos, kw) is not None]
+            if not cs:
+                continue
+            cfg = cfg_of(f)
+            params = {a.arg for a in f.args.posonlyargs + f.args.args + f.args.kwonlyargs}
+            for c in cs:
+                n += 1
+                st = cfg.stmt_of(c)
+                a = arg_of(c, pos, kw)
+                arg = norm(a)
+                renders = [
+                    r for r in calls_in(f)
+                    if r.args and _render_param(cfg, r.func, cfg.stmt_of(r), params) and _same_value(cfg, r.args[0], cfg.stmt_of(r), a, st)
+                ]
+                ok = any(cfg.stmt_of(r) is not st and cfg.dominates(cfg.stmt_of(r), st) for r in renders)
+                if not ok and not renders and not any(_render_param(cfg, r.func, cfg.stmt_of(r), params) for r in calls_in(f)):
+                    # a helper that only forwards its own parameter to the slicer (no render step of its
+                    # own): it is a slicer itself, and every call of it must come after the render
+                    po = param_origin(cfg, a, st)
+                    own = [x for x in _params(f) if x not in ("self", "cls")]
+                    callers = [c2 for _, g in fns for c2 in calls_in(g) if last_attr(c2) == f.name]
+                    if po is not None and po in own and callers and f.name not in seen:
+                        work.append((f.name, own.index(po), po))
+                        continue
+                chk.require(
+                    ok, "R04i", c,
+                    f"{q} slices `{arg}` with string.Formatter().parse before (or without) rendering it: an unbalanced brace raises a bare ValueError from the slicer, which has no "
+                    "handler because the render step -- whose handlers turn the same failure into a SQLTemplaterError / TMP violation -- was meant to reject the string first",
+                    detail=f"{q}: render_func dominates the raw slicer",
+                )
     chk.count("R04i.slicer_calls", n)
     chk.floor("R04i.slicer_calls", 1)
 
@@ -1535,6 +1571,8 @@ _ELSE_NEW = (
     "                variants[variant_raw_str] = (score, trace, length_deltas)\n"
 )
 
+PYTPL = "src/sqlfluff/core/templaters/python.py"
+
 VARIANTS: List[Variant] = [
     Variant(
         "python-templater-slices-before-rendering", "src/sqlfluff/core/templaters/python.py",
@@ -1819,4 +1857,54 @@ VARIANTS: List[Variant] = [
             "    if should_fix and result.num_violations(types=SQLLintError, fixable=True) > 0:\n        sql = result.paths[0].files[0].fix_string()[0]\n    return sql\n",
             "    if not should_fix:\n        return sql\n    if result.num_violations(types=SQLLintError, fixable=True) == 0:\n        return sql\n    return result.paths[0].files[0].fix_string()[0]\n",
             "QUIET", None, "if/else turned into early returns"),
+    # R04i: behaviour-preserving refactors: must stay quiet
+    Variant(
+        "quiet-r04i-slicer-argument-by-keyword", PYTPL,
+        '        raw_sliced = list(self._slice_template(raw_str))\n',
+        "        raw_sliced = list(self._slice_template(in_str=raw_str))\n",
+        "QUIET", None, "R04i: the string handed to the slicer by keyword",
+    ),
+    Variant(
+        "quiet-r04i-render-through-alias-and-local-source", PYTPL,
+        '        templated_str = render_func(raw_str)\n',
+        "        render = render_func\n        source_str = raw_str\n        templated_str = render(source_str)\n",
+        "QUIET", None, "R04i: the render callable and the raw string each through one more local",
+    ),
+    Variant(
+        "quiet-r04i-slices-collected-by-comprehension-on-the-class", PYTPL,
+        '        raw_sliced = list(self._slice_template(raw_str))\n',
+        "        raw_sliced = [raw_slice for raw_slice in PythonTemplater._slice_template(raw_str)]\n",
+        "QUIET", None, "R04i: list(...) spelled as a comprehension, classmethod called on the class",
+    ),
+    Variant(
+        "quiet-r04i-slicer-behind-a-forwarding-helper", PYTPL,
+        '        templater_logger.debug("    Templated String: %r", templated_str)\n        # Slice the raw file\n        raw_sliced = list(self._slice_template(raw_str))\n',
+        "        raw_sliced = self._raw_slices(raw_str)\n        templater_logger.debug(\"    Raw Sliced:\")\n        for idx, raw_slice in enumerate(raw_sliced):\n            templater_logger.debug(\"        %s: %r\", idx, raw_slice)\n        return self._slice_rendered(raw_str, templated_str, raw_sliced, config)\n\n    def _raw_slices(self, source: str) -> list[RawFileSlice]:\n        \"\"\"Slice the raw file.\"\"\"\n        return list(self._slice_template(source))\n\n    def _slice_rendered(self, raw_str, templated_str, raw_sliced, config):\n        \"\"\"Match the raw slices up with the rendered string.\"\"\"\n",
+        "QUIET", None, "R04i: the slicer call extracted into a helper that slice_file calls after rendering",
+    ),
+    Variant(
+        "quiet-r04i-formatter-inline-iterator-named", PYTPL,
+        "        fmt = Formatter()\n        in_idx = 0\n        for literal_text, field_name, format_spec, conversion in fmt.parse(in_str):\n",
+        "        in_idx = 0\n        fields = Formatter().parse(in_str)\n        for literal_text, field_name, format_spec, conversion in fields:\n",
+        "QUIET", None, "R04i: Formatter() used inline, the parse iterator named before the loop",
+    ),
+    # breaking twins in the same spellings
+    Variant(
+        "r04i-twin-helper-called-before-render", PYTPL,
+        '        templated_str = render_func(raw_str)\n        templater_logger.debug("    Templated String: %r", templated_str)\n        # Slice the raw file\n        raw_sliced = list(self._slice_template(raw_str))\n',
+        "        raw_sliced = self._raw_slices(raw_str)\n        templated_str = render_func(raw_str)\n        templater_logger.debug(\"    Templated String: %r\", templated_str)\n        templater_logger.debug(\"    Raw Sliced:\")\n        for idx, raw_slice in enumerate(raw_sliced):\n            templater_logger.debug(\"        %s: %r\", idx, raw_slice)\n        return self._slice_rendered(raw_str, templated_str, raw_sliced, config)\n\n    def _raw_slices(self, source: str) -> list[RawFileSlice]:\n        \"\"\"Slice the raw file.\"\"\"\n        return list(self._slice_template(source))\n\n    def _slice_rendered(self, raw_str, templated_str, raw_sliced, config):\n        \"\"\"Match the raw slices up with the rendered string.\"\"\"\n",
+        "R04i", "slice_file", "helper spelling, but the helper is called before the render step",
+    ),
+    Variant(
+        "r04i-twin-render-alias-of-another-string", PYTPL,
+        '        templated_str = render_func(raw_str)\n',
+        "        render = render_func\n        templated_str = render(append_to_templated)\n",
+        "R04i", "slice_file", "alias spelling, but what is rendered is not the string that gets sliced",
+    ),
+    Variant(
+        "r04i-twin-keyword-slicer-before-render", PYTPL,
+        '        templated_str = render_func(raw_str)\n        templater_logger.debug("    Templated String: %r", templated_str)\n        # Slice the raw file\n        raw_sliced = list(self._slice_template(raw_str))\n',
+        "        # Slice the raw file\n        raw_sliced = list(self._slice_template(in_str=raw_str))\n        templated_str = render_func(raw_str)\n        templater_logger.debug(\"    Templated String: %r\", templated_str)\n",
+        "R04i", "slice_file", "keyword spelling, slicer first",
+    ),
 ]
